@@ -76,6 +76,12 @@ class SymWorld(S.World):
     def index_map(self, name, new_sort, src_sort=None, n_src=1):
         return S.index_map(name, new_sort, n_src)
 
+    def block_index(self, part_sorts, which):
+        """index list addressing the coordinates of blocks `which` (list of positions) of a direct-sum axis"""
+        r = S.IndexArr("parts", parts=list(which), size=None)
+        r.of = len(part_sorts)
+        return r
+
     def partition(self, sort, parts, ascending=()):
         """index lists that partition range(|sort|): parts = [(name, part sort), ...]; arbitrary injections with disjoint
         ranges covering `sort` (any order).  Returns the IndexArr of every part."""
@@ -393,6 +399,12 @@ class NumWorld:
         eye = np.eye(Dn)
         return dict(S=self.xp.asarray(s[..., None] * eye), L=self.xp.asarray((1.0 / s)[..., None] * eye),
                     ld=self.xp.asarray(np.sum(np.log(s), axis=-1)), s=self.xp.asarray(s))
+
+    def block_index(self, part_sorts, which):
+        np = self.np
+        sizes = [self.sizes[p] if isinstance(p, str) else int(p) for p in part_sorts]
+        offs = np.concatenate([[0], np.cumsum(sizes)])
+        return self.xp.asarray(np.concatenate([np.arange(offs[k], offs[k + 1]) for k in which]))
 
     def partition(self, sort, parts, ascending=()):
         np = self.np
